@@ -76,4 +76,255 @@ theorem tf_blocked_is_per_block (eigh : EighFn α) (hp : ℕ → α → α) (cut
 
 end TF
 
+/-! ### round 3: entry level (C06 `deblockify_pointwise`, `blockify_block_contiguous`) and the padding adapter -/
+
+theorem popAt_insertAt_self (l : List Nat) (j x : Nat) (hj : j ≤ l.length) : popAt (insertAt l j x) j = l := by
+  unfold popAt insertAt
+  have h1 : (l.take j).length = j := by simp [Nat.min_eq_left hj]
+  rw [List.take_left' h1, List.drop_append, h1, List.drop_of_length_le (by omega), List.nil_append,
+    show j + 1 - j = 1 by omega]
+  simp
+
+theorem getD_insertAt_self (l : List Nat) (j x : Nat) (hj : j ≤ l.length) : (insertAt l j x).getD j 0 = x := by
+  rw [List.getD_eq_getElem?_getD, insertAt_getElem? l j x j hj]
+  simp
+
+theorem foldl_set_length (f : Nat → Nat) : ∀ (as l : List Nat), (as.foldl (fun l a => l.set a (f a)) l).length = l.length
+  | [], _ => rfl
+  | a :: as, l => by simp only [List.foldl_cons]; rw [foldl_set_length f as]; simp
+
+theorem innerIndexOf_length (m : BlocksMeta) (idx : List Nat) : (innerIndexOf m idx).length = idx.length :=
+  foldl_set_length _ _ _
+
+theorem blocksAxis_le (b : Nat) (S : List Nat) : (blocksMetadata b S).blocksAxis ≤ S.length := by
+  simp only [blocksMetadata]
+  cases h : (List.range S.length).filter fun i => S.getD i 0 ≥ b with
+  | nil => simp
+  | cons a as =>
+    have : a ∈ (List.range S.length).filter fun i => S.getD i 0 ≥ b := by rw [h]; exact List.mem_cons_self ..
+    have := (List.mem_filter.mp this).1
+    simp only [List.mem_range] at this
+    simp only [List.headD_cons]; omega
+
+theorem deblockify_shape_eq {α : Type} (X : Tensor α) (b : Nat) (S : List Nat)
+    (hle : (blocksMetadata b S).largeAxes.length ≤ 2) : (deblockify X (blocksMetadata b S)).shape = S := by
+  unfold deblockify
+  split
+  · rfl
+  · rfl
+  · rfl
+  · rename_i h1 h2 h3
+    exfalso
+    match hla : (blocksMetadata b S).largeAxes with
+    | [] => exact h1 hla
+    | [a] => exact h2 a hla
+    | [a, c] => exact h3 a c hla
+    | _ :: _ :: _ :: _ => rw [hla] at hle; simp at hle
+
+
+section Entry
+variable {α : Type} [Zero α] [One α] [Add α] [Sub α] [Mul α] [LT α] [DecidableLT α] [BEq α] [Max α] {P : Type}
+
+/-- entry of `deblockify ∘ assembleBlocks`: the entry of the block's own output array -/
+theorem deblockify_assemble_get (ys : List (Array α)) (b : Nat) (hb : 0 < b) (S : List Nat)
+    (hle : (blocksMetadata b S).largeAxes.length ≤ 2)
+    (hdiv : ∀ a ∈ (blocksMetadata b S).largeAxes, b ∣ S.getD a 0) (idx : List Nat) (hi : inBounds S idx) :
+    let m := blocksMetadata b S
+    (deblockify (ofFlat (blockedShape m) (assembleBlocks ys (blockedShape m) m.blockSizes m.blocksAxis)) m).get idx =
+      rd (ys.getD (blockIndexOf m idx) #[]) (ravel m.blockSizes (innerIndexOf m idx)) := by
+  intro m
+  obtain ⟨h1, h2⟩ := C06.deblockify_pointwise S b hb hle hdiv
+    (ofFlat (blockedShape m) (assembleBlocks ys (blockedShape m) m.blockSizes m.blocksAxis)) rfl idx hi
+  rw [h1]
+  have hba : m.blocksAxis ≤ (innerIndexOf m idx).length := by
+    rw [innerIndexOf_length, inBounds_length hi]; exact blocksAxis_le b S
+  show rd (assembleBlocks ys (blockedShape m) m.blockSizes m.blocksAxis) (ravel (blockedShape m) _) = _
+  unfold assembleBlocks
+  have hf := flat_get (⟨blockedShape m, fun idx =>
+      rd (ys.getD (idx.getD m.blocksAxis 0) #[]) (ravel m.blockSizes (popAt idx m.blocksAxis))⟩ : Tensor α)
+    (insertAt (innerIndexOf m idx) m.blocksAxis (blockIndexOf m idx)) h2
+  rw [hf]
+  show rd (ys.getD ((insertAt (innerIndexOf m idx) m.blocksAxis (blockIndexOf m idx)).getD m.blocksAxis 0) #[])
+    (ravel m.blockSizes (popAt (insertAt (innerIndexOf m idx) m.blocksAxis (blockIndexOf m idx)) m.blocksAxis)) = _
+  rw [getD_insertAt_self _ _ _ hba, popAt_insertAt_self _ _ _ hba]
+
+/-- entry-level form of `tf_blocked_is_per_block` -/
+theorem tf_update_entry (eigh : EighFn α) (hp : ℕ → α → α) (cut decay : α) (bs sf pf : ℕ) (ps : List ℕ)
+    (u : List α) (st : ShState α) (x : P) (hb : 0 < bs)
+    (hle : (blocksMetadata bs ps).largeAxes.length ≤ 2)
+    (hdiv : ∀ a ∈ (blocksMetadata bs ps).largeAxes, bs ∣ ps.getD a 0)
+    (hlen : st.blocks.length = (blocksMetadata bs ps).numBlocks) (idx : List Nat) (hi : inBounds ps idx) :
+    let m := blocksMetadata bs ps
+    let Bt := blockify (ofFlatL ps u) m
+    let blk := blockIndexOf m idx
+    blk < m.numBlocks ∧
+    (ofFlatL ps ((shampooTx (P := P) eigh hp cut decay bs sf pf ps).update u st x).1).get idx =
+      rd (tfBlockStep eigh (hp (shampooExponent ps)) cut decay m.blockSizes sf pf st.count
+            (extractBlock Bt.flat.toArray Bt.shape m.blockSizes m.blocksAxis blk)
+            (st.blocks.getD blk ⟨[], []⟩)).2
+        (ravel m.blockSizes (innerIndexOf m idx)) := by
+  intro m Bt blk
+  have hsh : Bt.shape = blockedShape m := (C06.blockify_shape (ofFlatL ps u) bs hb hle hdiv).1
+  obtain ⟨_, h2⟩ := tf_blocked_is_per_block eigh hp cut decay bs sf pf ps u st x hlen
+  have hba : m.blocksAxis ≤ (innerIndexOf m idx).length := by
+    rw [innerIndexOf_length, inBounds_length hi]; exact blocksAxis_le bs ps
+  have hba' : m.blocksAxis ≤ m.blockSizes.length := by
+    have := blocksAxis_le bs ps
+    simpa [m, blocksMetadata] using this
+  have hblk : blk < m.numBlocks := by
+    obtain ⟨_, hin⟩ := C06.deblockify_pointwise ps bs hb hle hdiv
+      (ofFlat (blockedShape m) (#[] : Array α)) rfl idx hi
+    have := inBounds_getD hin m.blocksAxis (by
+      show m.blocksAxis < (insertAt m.blockSizes m.blocksAxis m.numBlocks).length
+      simp [insertAt]; omega)
+    have e1 : (blockedIndex m idx).getD m.blocksAxis 0 = blk := getD_insertAt_self _ _ _ hba
+    have e2 : (ofFlat (blockedShape m) (#[] : Array α)).shape.getD m.blocksAxis 0 = m.numBlocks :=
+      getD_insertAt_self _ _ _ hba'
+    rw [e1, e2] at this
+    exact this
+  refine ⟨hblk, ?_⟩
+  rw [h2]
+  have hds : (deblockify (ofFlat Bt.shape (assembleBlocks
+      ((List.zipWith (tfBlockStep eigh (hp (shampooExponent ps)) cut decay m.blockSizes sf pf st.count)
+        ((List.range m.numBlocks).map fun n => extractBlock Bt.flat.toArray Bt.shape m.blockSizes m.blocksAxis n)
+        st.blocks).map Prod.snd) Bt.shape m.blockSizes m.blocksAxis)) m).shape = ps :=
+    deblockify_shape_eq _ bs ps hle
+  show rd (Tensor.flat _).toArray (ravel ps idx) = _
+  have hfg := flat_get (deblockify (ofFlat Bt.shape (assembleBlocks
+      ((List.zipWith (tfBlockStep eigh (hp (shampooExponent ps)) cut decay m.blockSizes sf pf st.count)
+        ((List.range m.numBlocks).map fun n => extractBlock Bt.flat.toArray Bt.shape m.blockSizes m.blocksAxis n)
+        st.blocks).map Prod.snd) Bt.shape m.blockSizes m.blocksAxis)) m) idx (by rw [hds]; exact hi)
+  rw [hds] at hfg
+  rw [hfg, hsh, deblockify_assemble_get _ bs hb ps hle hdiv idx hi]
+  congr 1
+  have hb2 : blk < st.blocks.length := by rw [hlen]; exact hblk
+  simp [List.getD_eq_getElem?_getD, hblk, hb2, blk, m]
+
+theorem inBounds_insertAt (sh idx : List Nat) (j x n : Nat) (h : inBounds sh idx) (hj : j ≤ sh.length) (hx : x < n) :
+    inBounds (insertAt sh j n) (insertAt idx j x) := by
+  have hl := inBounds_length h
+  rw [inBounds_iff]
+  refine ⟨by simp [insertAt, hl], ?_⟩
+  intro k hk
+  have hk' : k < sh.length + 1 := by
+    have e : (insertAt sh j n).length = sh.length + 1 := by simp [insertAt]; omega
+    omega
+  rw [List.getD_eq_getElem?_getD, List.getD_eq_getElem?_getD, insertAt_getElem? idx j x k (by omega),
+    insertAt_getElem? sh j n k hj]
+  by_cases h1 : k < j
+  · simp only [h1, if_true]
+    have := inBounds_getD h k (by omega)
+    simpa [List.getD_eq_getElem?_getD] using this
+  · by_cases h2 : k = j
+    · simp [h2, hx]
+    · simp only [h1, h2, if_false]
+      have := inBounds_getD h (k - 1) (by omega)
+      simpa [List.getD_eq_getElem?_getD] using this
+
+/-- a block's gradient slice is the contiguous sub-tensor of the leaf starting at the block's offsets -/
+theorem tf_block_slice_get (bs : ℕ) (ps : List ℕ) (u : List α) (hb : 0 < bs)
+    (hle : (blocksMetadata bs ps).largeAxes.length ≤ 2)
+    (hdiv : ∀ a ∈ (blocksMetadata bs ps).largeAxes, bs ∣ ps.getD a 0) (n : Nat)
+    (hn : n < (blocksMetadata bs ps).numBlocks) (j : List Nat) (hj : inBounds (blocksMetadata bs ps).blockSizes j) :
+    let m := blocksMetadata bs ps
+    let Bt := blockify (ofFlatL ps u) m
+    rd (extractBlock Bt.flat.toArray Bt.shape m.blockSizes m.blocksAxis n) (ravel m.blockSizes j) =
+      (ofFlatL ps u).get (addOff (tfBlockOffsets m n) j) := by
+  intro m Bt
+  have hsh : Bt.shape = blockedShape m := (C06.blockify_shape (ofFlatL ps u) bs hb hle hdiv).1
+  have hba' : m.blocksAxis ≤ m.blockSizes.length := by
+    have := blocksAxis_le bs ps
+    simpa [m, blocksMetadata] using this
+  have hbaj : m.blocksAxis ≤ j.length := by rw [inBounds_length hj]; exact hba'
+  have hin : inBounds (blockedShape m) (insertAt j m.blocksAxis n) := inBounds_insertAt _ _ _ _ _ hj hba' hn
+  unfold extractBlock
+  have hf := flat_get (⟨m.blockSizes, fun idx => rd Bt.flat.toArray (ravel Bt.shape (insertAt idx m.blocksAxis n))⟩ :
+    Tensor α) j hj
+  rw [hf]
+  show rd Bt.flat.toArray (ravel Bt.shape (insertAt j m.blocksAxis n)) = _
+  rw [flat_get Bt _ (by rw [hsh]; exact hin)]
+  obtain ⟨h1, _, _⟩ := C06.blockify_block_contiguous (ofFlatL ps u) bs hb hle hdiv _ hin
+  have h1' : Bt.get (insertAt j m.blocksAxis n) =
+      (ofFlatL ps u).get (addOff (tfBlockOffsets m ((insertAt j m.blocksAxis n).getD m.blocksAxis 0))
+        (popAt (insertAt j m.blocksAxis n) m.blocksAxis)) := h1
+  rw [h1', getD_insertAt_self _ _ _ hbaj, popAt_insertAt_self _ _ _ hbaj]
+
+end Entry
+
+
+section PadAdapter
+variable {α : Type} [Field α] [LinearOrder α] [IsStrictOrderedRing α]
+
+theorem sumRange_eq_fin (n : Nat) (f : Nat → α) : sumRange n f = ∑ c : Fin n, f c.val := by
+  unfold sumRange
+  rw [Fin.sum_univ_def, ← List.map_coe_finRange_eq_range, List.map_map]
+  rfl
+
+theorem rd_matToArr {n : Nat} (M : Fin n → Fin n → α) (i j : Fin n) : rd (matToArr M) (i.val * n + j.val) = M i j := by
+  unfold rd matToArr
+  have hn : 0 < n := Nat.lt_of_le_of_lt (Nat.zero_le _) i.isLt
+  rw [Array.getD_eq_getD_getElem?, List.getElem?_toArray,
+    flatMap_getElem?_of_length (fun i => (List.finRange n).map fun j => M i j) n hn (by simp)]
+  have h1 : (i.val * n + j.val) / n = i.val := by
+    rw [Nat.add_comm, Nat.add_mul_div_right _ _ hn, Nat.div_eq_of_lt j.isLt, Nat.zero_add]
+  have h2 : (i.val * n + j.val) % n = j.val := by
+    rw [Nat.add_comm, Nat.add_mul_mod_self_right, Nat.mod_eq_of_lt j.isLt]
+  rw [h1, h2]
+  simp
+
+/-- **adapter: `zero_padding_invisible` on the block arrays `applyAxis` works on.**  One factor of `_precondition_blocks`
+along an axis of padded extent `n + k`, with the root `blockRoot` computes from the stored statistics array `C'`, when
+those statistics are `blockdiag(C, 0)` (`EighSpec` of the solver's output for `padFn k C`): the output entry in a real row
+`i < n` is `Σ_{c<n} R[i][c] · x[o,c,r]` with `R` the root of the UNPADDED statistics `C` — the padded entries of `x` and the
+padding of the statistics never enter — and the output entries in padding rows are exactly `0`. -/
+theorem applyAxis_padded_root (eigh : EighFn α) (hp : α → α) (cut : α) (hcut : 0 ≤ cut) (v : AxView) (n k : Nat)
+    (hv : v.d = n + k) (C' x : Array α) (C : Matrix (Fin n) (Fin n) α) (e : EighOut α n) (hs : EighSpec C e)
+    (hw : ∀ a, 0 ≤ e.w a) (hs' : EighSpec (Matrix.of (padFn k C)) (eigh (n + k) (arrToMat (n + k) C')))
+    (o i r : Nat) (ho : o < v.outer) (hi : i < n + k) (hr : r < v.inner) :
+    rd (applyAxis v (blockRoot eigh hp cut (n + k) C') x) ((o * v.d + i) * v.inner + r) =
+      if h : i < n then ∑ c : Fin n, rootOfEigh hp cut e ⟨i, h⟩ c * rd x ((o * v.d + c.val) * v.inner + r) else 0 := by
+  have hroot : rootOfEigh hp cut (eigh (n + k) (arrToMat (n + k) C')) = padFn k (rootOfEigh hp cut e) := by
+    rw [rootOfEigh_unique hp cut _ _ (padEigh k e) hs' (padEigh_spec k C e hs), rootOfEigh_padEigh hp cut hcut k e hw]
+  have hd : 0 < v.d := by omega
+  have hin : 0 < v.inner := by omega
+  have hlt : (o * v.d + i) * v.inner + r < v.outer * v.d * v.inner := by
+    have h1 : o * v.d + i + 1 ≤ v.outer * v.d := by
+      calc o * v.d + i + 1 ≤ o * v.d + v.d := by omega
+        _ = (o + 1) * v.d := by rw [Nat.succ_mul]
+        _ ≤ v.outer * v.d := Nat.mul_le_mul_right _ ho
+    calc (o * v.d + i) * v.inner + r < (o * v.d + i) * v.inner + v.inner := by omega
+      _ = (o * v.d + i + 1) * v.inner := by rw [Nat.succ_mul]
+      _ ≤ v.outer * v.d * v.inner := Nat.mul_le_mul_right _ h1
+  have e1 : ((o * v.d + i) * v.inner + r) % v.inner = r := by
+    rw [Nat.add_comm, Nat.add_mul_mod_self_right, Nat.mod_eq_of_lt hr]
+  have e2 : ((o * v.d + i) * v.inner + r) / v.inner = o * v.d + i := by
+    rw [Nat.add_comm, Nat.add_mul_div_right _ _ hin, Nat.div_eq_of_lt hr, Nat.zero_add]
+  have e3 : (o * v.d + i) % v.d = i := by
+    rw [Nat.add_comm, Nat.add_mul_mod_self_right, Nat.mod_eq_of_lt (by omega)]
+  have e4 : (o * v.d + i) / v.d = o := by
+    rw [Nat.add_comm, Nat.add_mul_div_right _ _ hd, Nat.div_eq_of_lt (by omega), Nat.zero_add]
+  unfold applyAxis
+  rw [rd_tab _ _ _ hlt]
+  simp only [e1, e2, e3, e4]
+  rw [sumRange_eq_fin, hv]
+  have hR : ∀ c : Fin (n + k), rd (blockRoot eigh hp cut (n + k) C') (i * (n + k) + c.val) =
+      padFn k (rootOfEigh hp cut e) ⟨i, hi⟩ c := by
+    intro c
+    show rd (matToArr (rootOfEigh hp cut (eigh (n + k) (arrToMat (n + k) C')))) (i * (n + k) + c.val) = _
+    rw [hroot]
+    exact rd_matToArr _ ⟨i, hi⟩ c
+  simp only [hR]
+  by_cases h : i < n
+  · rw [dif_pos h, Fin.sum_univ_add]
+    have : (⟨i, hi⟩ : Fin (n + k)) = Fin.castAdd k ⟨i, h⟩ := rfl
+    rw [this]
+    simp only [padFn, Fin.addCases_left, Fin.addCases_right, zero_mul, Finset.sum_const_zero, add_zero,
+      Fin.val_castAdd]
+  · rw [dif_neg h]
+    have : (⟨i, hi⟩ : Fin (n + k)) = Fin.natAdd n ⟨i - n, by omega⟩ := by ext; simp; omega
+    rw [this]
+    simp only [padFn, Fin.addCases_right, zero_mul, Finset.sum_const_zero]
+
+end PadAdapter
+
 end PrecondVerif.Compose
